@@ -171,6 +171,25 @@ theorem assign_stays_loadable (render : Cell → String) (scale : α → α) (d 
     (findAssign (run render scale d ops).assign).isSome ∧ ¬ Conflict (run render scale d ops).assign :=
   ⟨(shown_run render scale ops d [] hfile).2.1, (shown_run render scale ops d [] hfile).2.2 hnc⟩
 
+theorem absRun_clusters_ok (ns : Nat) : ∀ (ops : List Op) (a : Abs), AssignOK ns a.clusters → SavesOK ns ops →
+    AssignOK ns (absRun a ops).clusters
+  | [], _, h, _ => h
+  | op :: ops, a, h, hs => by
+    simp only [absRun, List.foldl_cons]
+    refine absRun_clusters_ok ns ops (absStep a op) ?_ (fun o ho => hs o (List.mem_cons_of_mem _ ho))
+    have h1 := hs op List.mem_cons_self
+    cases op <;> first | exact h1 | exact h
+
+/-- `clusters_last_saved` over the histories whose saves a load accepts, with the loadability of the result -/
+theorem clusters_last_saved_ok (render : Cell → String) (scale : α → α) (d : Disk α)
+    (hfile : (findAssign d.assign).isSome)
+    (hinit : AssignOK d.fixed.spikeSamples.length (shown d)) (ops : List Op)
+    (hsaves : SavesOK d.fixed.spikeSamples.length ops) :
+    shown (run render scale d ops) = (absRun ⟨shown d, []⟩ ops).clusters ∧
+    AssignOK d.fixed.spikeSamples.length (shown (run render scale d ops)) := by
+  have h := clusters_last_saved render scale d hfile ops
+  exact ⟨h, h ▸ absRun_clusters_ok _ ops ⟨shown d, []⟩ hinit hsaves⟩
+
 /-- the load that opens a session: a directory without an assignment file gets `spike_clusters.npy` with the content
 of `spike_templates.npy`, any other directory is left alone; afterwards a file is found, and it shows what this load
 showed -/
@@ -202,6 +221,23 @@ theorem first_load (render : Cell → String) (scale : α → α) (d : Disk α) 
       simp only [List.mem_singleton] at hq
       subst hq
       cases hs
+
+/-- `first_load` on the directories the loader accepts (`_find_path(multiple_ok=False)` raises IOError when both name
+patterns match): no conflict before, none after -/
+theorem first_load_nc (render : Cell → String) (scale : α → α) (d : Disk α) (hnc : ¬ Conflict d.assign) :
+    (findAssign (step render scale d .reload).assign).isSome ∧
+    ¬ Conflict (step render scale d .reload).assign ∧
+    shown (step render scale d .reload) = shown d ∧
+    ((findAssign d.assign).isSome → step render scale d .reload = d) ∧
+    (findAssign d.assign = none →
+      (step render scale d .reload).assign = [(none, d.fixed.spikeTemplates)]) ∧
+    (step render scale d .reload).files = d.files ∧ (step render scale d .reload).subset = d.subset ∧
+    (step render scale d .reload).fixed = d.fixed := by
+  obtain ⟨h1, h2, h3, h4, h5, h6, h7⟩ := first_load render scale d
+  refine ⟨h1, ?_, h2, h3, fun h => (h4 h).1, h5, h6, h7⟩
+  cases h : findAssign d.assign with
+  | some p => rw [h3 (by rw [h]; rfl)]; exact hnc
+  | none => exact (h4 h).2
 
 theorem unreadable_ignored (parse : String → Cell) (fnum : Nat → Option Int) (files : List (FName × File)) (name : FName) :
     metadataView parse fnum (putFile files name .unreadable) =
